@@ -341,6 +341,7 @@ def check(rep):
                 'x code/text; stop_consuming with 0..7 consumers; COSIM-a: broker closes a channel with 0..2 queued returned-message errors '
                 'and 0..3 consumers; COSIM-b: 1..2 threads call Channel.close (+ a later repeat); COSIM-c: 1..3 threads call Connection.close '
                 '1..2 times each; distinct = distinct parameter tuples/scenarios; non-trivial = errors pending / >= 2 consumers / >= 2 closers')
+    rep.rule += "; plus: crossing close handshakes (the broker's own Channel.Close answers the application's) and closes through the context managers (also with a raising block)"
     rep.assumptions = [
         'two threads calling Channel.close() on the same channel at the same time is a recorded finding (no lock protects the test-and-set)',
         'Connection.close() by several threads relies on the connection RLock (regenerated flag connCloseUnderLock)',
